@@ -88,6 +88,16 @@ def check_graph(cfg, sampler, mol):
                         f'{[(x, mol.nodes[x].get("element", mol.nodes[x].get("atomname"))) for x in g1]} {list(g1.edges(data="order"))} vs '
                         f'{[(x, t.nodes[x].get("element", t.nodes[x].get("atomname"))) for x in g2]} {list(g2.edges(data="order"))}'))
             continue
+        if cfg['all_atom']:
+            # a hydrogen WRITTEN on a lower-case ring nitrogen ([nH]) is part of the unit: every copy has it (adding up bond
+            # orders does not see it while the ring still carries 1.5 bonds)
+            import re
+            k_nh = dict(re.findall(r'#(\w+)=([^,}]*)', cfg['frag_string'])).get(fname, '').count('[nH]')
+            if k_nh:
+                got_nh = sum(1 for x in heavy if mol.nodes[x].get('element') == 'N' and any(mol.nodes[y].get('element') == 'H' for y in mol[x]))
+                if got_nh != k_nh:
+                    out.append(('c16.written_hydrogen_lost', f'{txt}: block {k} ({fname}) has {got_nh} ring N-H, its fragment is written with {k_nh} [nH]'))
+                    continue
         tn = list(t.nodes)
         first = nodes[:len(tn)]
         key = 'element' if cfg['all_atom'] else 'atomname'
